@@ -31,6 +31,7 @@ def check(ctx: Ctx) -> None:
     model = ctx.model
     ga = G.load(model, G.AHB_MOD)
     gc = G.load(model, G.COND_MOD)
+    G.report_options(ctx, "C09.shape", ga, GFILE, skip=("ordered_sets",))  # acceptance / the unambiguous part structure do not depend on it
     cls = model.cls(AET)
     # ---- C09.shape: a callback for every rule / alias / indicator terminal
     needed = {r.alias or r.origin for r in ga.rules if not (r.alias or r.origin).startswith("_")}
